@@ -66,6 +66,14 @@ fixed("C05", "logical-param-rejects-nodes-call", "8581119", "f(nn(@.*)) with f: 
       {"module": "vtools.props.c05", "func": "r_typed", "args": {"query": "$[?f(nn(@.*)) == 1]", "sig": {"f": [["L"], "V"], "nn": [["N"], "N"]}}})
 fixed("C05", "paren-argument", "6de8b16", "a parenthesized argument for a LogicalType parameter was a syntax error ($[?f((@.a))])",
       {"module": "vtools.props.c05", "func": "r_typed", "args": {"query": "$[?f((@.a))]", "sig": {"f": [["L"], "L"]}}})
+# ---- C08
+fixed("C08", "control-char-name-requery", "1c29a0f", "the normalized path of a member whose name contains U+0000-U+001F (other than \\b \\f \\n \\r \\t) was refused by the library's own parser",
+      {"module": "vtools.props.c08", "func": "r_requery", "args": {"name": "\u0000\u0013"}})
+# ---- C10
+fixed("C10", "logical-param-gets-value", "129f2ff", "a LogicalType parameter received the selected value / nothing / a node list instead of true|false ($[?pl(@.a)] with a == 0 passed 0)",
+      {"module": "vtools.props.c10", "func": "r_conv", "args": {"query": "$[?pl(@.a)]", "doc": [{"a": 0}, {"b": 1}]}})
+fixed("C10", "nodes-param-on-scalar-child", "1a173fd", "count(@) / value(@) / a NodesType parameter on a scalar child received the bare value (TypeError/AttributeError)",
+      {"module": "vtools.props.c10", "func": "r_conv", "args": {"query": "$[?pn(@)]", "doc": [0, "x", None]}})
 # ---- C09
 fixed("C09", "escaped-control", "1c29a0f", "$['\\u0000'] .. $['\\u001f'] were rejected although valid", {"module": "vtools.props.c09", "func": "r_hex", "args": {"digits": "0000"}})
 fixed("C09", "escaped-control-1f", "1c29a0f", "$['\\u001F'] was rejected", {"module": "vtools.props.c09", "func": "r_hex", "args": {"digits": "001F"}})
